@@ -82,8 +82,9 @@ func runWireHistoryOnce(args []string) []string {
 		return []string{"wiring-error:" + strings.ReplaceAll(err.Error(), " ", "_")}
 	}
 	ctx, cancel := context.WithTimeout(context.Background(), 10*time.Second)
-	defer cancel()
-	if err := app.Start(ctx); err != nil {
+	startErr := app.Start(ctx)
+	cancel() // the start context ends when the start is over, as under fx.App.Run: nothing may go on living off it
+	if err := startErr; err != nil {
 		return []string{"infra:start"}
 	}
 	defer func() { _ = app.Stop(context.Background()) }()
@@ -146,6 +147,20 @@ func runWireHistoryOnce(args []string) []string {
 			if _, err := c.Write(payload); err != nil {
 				return []string{"infra:write"}
 			}
+			// while another writer holds the lock this datagram waits for (op hold), the listener must go on serving others: an
+			// availability request from another socket is answered at once (it touches no storage)
+			blocked := false
+			if time.Now().Before(patientUntil) {
+				if pc, err := net.DialUDP("udp4", &net.UDPAddr{IP: net.IPv4(127, 0, 0, 77)}, server); err == nil {
+					time.Sleep(20 * time.Millisecond) // let the held datagram's handler reach the lock
+					_, _ = pc.Write(Available())
+					_ = pc.SetReadDeadline(time.Now().Add(140 * time.Millisecond))
+					if _, err := pc.Read(buf); err != nil {
+						blocked = true
+					}
+					pc.Close()
+				}
+			}
 			// a reply ends the wait; otherwise: until the store has changed and stood still, or nothing happened for 60 ms
 			outcome := "none"
 			deadline := time.Now().Add(1500 * time.Millisecond)
@@ -164,6 +179,9 @@ func runWireHistoryOnce(args []string) []string {
 				if time.Since(since) > 60*time.Millisecond && time.Now().After(patientUntil) {
 					break
 				}
+			}
+			if blocked {
+				outcome = "others-blocked-behind:" + outcome
 			}
 			time.Sleep(5 * time.Millisecond) // let the handler goroutine finish its bookkeeping after the reply
 			d := JoinDump(w.Dump())
@@ -214,8 +232,9 @@ func RunWirePar(k, rounds int) []string {
 		return []string{"wiring-error:" + strings.ReplaceAll(err.Error(), " ", "_")}
 	}
 	ctx, cancel := context.WithTimeout(context.Background(), 10*time.Second)
-	defer cancel()
-	if err := app.Start(ctx); err != nil {
+	startErr := app.Start(ctx)
+	cancel() // the start context ends when the start is over, as under fx.App.Run: nothing may go on living off it
+	if err := startErr; err != nil {
 		return []string{"infra:start"}
 	}
 	defer func() { _ = app.Stop(context.Background()) }()
